@@ -594,6 +594,48 @@ func ruleG1b(r *Run) {
 		})
 		if robj != nil && stored {
 			okPair = true
+			// ... on EVERY path: the store is a statement of the callback's own block and no return comes before it
+			bp := parentMap(body)
+			ast.Inspect(body, func(n ast.Node) bool {
+				call, ok := n.(*ast.CallExpr)
+				if !ok || methodName(call) != "Set" || len(call.Args) != 2 || identObj(info, call.Args[1]) != robj {
+					return true
+				}
+				if lit, ok := call.Args[0].(*ast.BasicLit); !ok || lit.Value != `"retried"` {
+					return true
+				}
+				// the function (literal) the store belongs to
+				var fbody *ast.BlockStmt
+				var stmt ast.Node = call
+				for q := bp[call]; q != nil; q = bp[q] {
+					if fl, ok := q.(*ast.FuncLit); ok {
+						fbody = fl.Body
+						break
+					}
+					if _, ok := q.(ast.Stmt); ok && stmt == ast.Node(call) {
+						stmt = q
+					}
+				}
+				if fbody == nil {
+					fbody = body
+				}
+				why := ""
+				if bp[stmt] != ast.Node(fbody) {
+					why = "the store is conditional"
+				}
+				ast.Inspect(fbody, func(k ast.Node) bool {
+					if ret, ok := k.(*ast.ReturnStmt); ok && ret.Pos() < call.Pos() {
+						why = "a return at " + p.Rel(ret.Pos()) + " comes before the store"
+					}
+					return true
+				})
+				if why != "" {
+					r.Viol(key+" on every path", call.Pos(), "OnRetry does not store the advanced `retried` item on every path ("+why+"): on that path the counter stands still, `retried < retry` stays true and an idempotent call is re-sent without end")
+				} else {
+					r.Ok(key+" on every path", call.Pos(), "the store is unconditional and precedes every return")
+				}
+				return true
+			})
 		}
 		}
 		r.Check(okPair, key, fd.Pos(), `retried := GetInt("retried") + 1; Set("retried", retried)`, "OnRetry no longer increments the call's `retried` item by exactly one and stores it back: the budget `retried < retry` is never reached (endless retries) or skipped")
